@@ -10,15 +10,9 @@ open Revm.Proofs.Memory (WF)
 /-- the handler continues, having consumed at least 1 gas, with the instruction pointer where the fetch left it -/
 def Done1 (s0 s' : IState) : Prop := ∃ k st ne L, 1 ≤ k ∧ Rel k st ne L s0 s'
 
-/-- the state right after the opcode fetch of `Interpreter::step` -/
-structure Start (s : IState) : Prop where
-  codeLen : s.code.length = s.origLen + 33
-  jt : ∀ t, Jump.isValid s.jumpTable t = true → t < s.origLen
-  legacy : s.isEof = false
-  notInit : s.isEofInit = false
+/-- what every handler needs of the state it starts in, whatever the code format -/
+structure Base (s : IState) : Prop where
   envOk : GasCalc.enabled s.spec GasCalc.SpecId.MERGE = true → s.env.prevrandao ≠ none
-  origLe : s.origLen ≤ Memory.ISIZE_MAX
-  pc : s.pc ≤ s.origLen
   stack : s.stack.length ≤ 1024
   memWF : WF s.mem
   memCk : s.mem.lastCheckpoint ≤ 2^62
@@ -27,11 +21,23 @@ structure Start (s : IState) : Prop where
   meas : measure s ≤ U64 - 1
   safe : measure s < U64 - 1 ∨ s.stack = []
 
-theorem Start.rel {s : IState} (h : Start s) : Rel 0 false false 0 s s :=
-  { code := rfl, origLen := rfl, jt := rfl, isEof := rfl, isEofInit := rfl, spec := rfl, env := rfl, input := rfl,
-    ck := rfl, cks := rfl, stack := h.stack, memWF := h.memWF, memCk := h.memCk, memL := Nat.zero_le _, grow := Nat.le_refl _,
+theorem Base.rel {s : IState} (h : Base s) : Rel 0 false false 0 s s :=
+  { code := rfl, origLen := rfl, jt := rfl, eofc := rfl, isEof := rfl, isEofInit := rfl, spec := rfl, env := rfl,
+    input := rfl, ck := rfl, cks := rfl, stack := h.stack, memWF := h.memWF, memCk := h.memCk,
+    memL := Nat.zero_le _, grow := Nat.le_refl _,
     rdLen := h.rdLen, inLen := h.inLen, m0 := h.meas, meas := Nat.le_of_eq (Nat.add_zero _),
     strict := fun e => (by cases e), safe := h.safe, nonempty := fun e => (by cases e), pc := rfl }
+
+/-- the state right after the opcode fetch of `Interpreter::step`, legacy code -/
+structure Start (s : IState) : Prop extends Base s where
+  codeLen : s.code.length = s.origLen + 33
+  jt : ∀ t, Jump.isValid s.jumpTable t = true → t < s.origLen
+  legacy : s.isEof = false
+  notInit : s.isEofInit = false
+  origLe : s.origLen ≤ Memory.ISIZE_MAX
+  pc : s.pc ≤ s.origLen
+
+theorem Start.rel {s : IState} (h : Start s) : Rel 0 false false 0 s s := h.toBase.rel
 
 /-- the instruction continues: invariant, at least 1 gas consumed, instruction pointer inside the code -/
 structure Next (s0 s' : IState) : Prop where
@@ -131,7 +137,9 @@ theorem pushValI_sat (h : Rel 0 false false 0 s0 s) (g fk : Nat) (v : IState →
   intro _ s4 h4
   exact done1_of h4 (by omega)
 
-theorem difficultyI_sat (hs : Start s0) (h : Rel 0 false false 0 s0 s) :
+theorem difficultyI_sat
+    (henv : GasCalc.enabled s0.spec GasCalc.SpecId.MERGE = true → s0.env.prevrandao ≠ none)
+    (h : Rel 0 false false 0 s0 s) :
     Exec.Sat (difficultyI s) (Halt s0) (fun _ s' => Done1 s0 s') := by
   unfold difficultyI
   refine sat_bind (gasCharge_sat h _) ?_
@@ -141,7 +149,7 @@ theorem difficultyI_sat (hs : Start s0) (h : Rel 0 false false 0 s0 s) :
   have h2' : Rel (0 + GasCalc.BASE) true false 0 s0 s2 := h2.mkStrict (by decide)
   split
   · rename_i hm
-    have hne := hs.envOk (by rw [← h2.spec]; exact hm)
+    have hne := henv (by rw [← h2.spec]; exact hm)
     rw [← h2.env] at hne
     cases hp : s2.env.prevrandao with
     | none => exact absurd hp hne
@@ -189,8 +197,10 @@ theorem verylowcopyCost_ge {len c : Nat} (h : GasCalc.verylowcopyCost len = some
 
 theorem copyToMem_sat (h : Rel 0 false false 0 s0 s) (data : IState → List Nat)
     (hd : ∀ s', s'.input = s0.input → s'.code = s0.code → s'.origLen = s0.origLen →
-      (data s').length ≤ Memory.ISIZE_MAX) :
-    Exec.Sat (copyToMem data s) (Halt s0) (fun _ s' => Done1 s0 s') := by
+      (data s').length ≤ Memory.ISIZE_MAX)
+    (guard : M Unit)
+    (hg : ∀ x, x.isEof = s0.isEof → Exec.Sat (guard x) (Halt s0) (fun _ x' => x = x')) :
+    Exec.Sat (copyToMem data guard s) (Halt s0) (fun _ s' => Done1 s0 s') := by
   unfold copyToMem
   refine sat_bind (pop3_sat h) ?_
   rintro ⟨memOff, dataOff, len⟩ s1 h1
@@ -205,12 +215,32 @@ theorem copyToMem_sat (h : Rel 0 false false 0 s0 s) (data : IState → List Nat
     rintro memOff' s4 ⟨e4, hmo⟩; subst e4
     refine sat_bind (resizeMem_sat (h3.mkStrict (by omega)) memOff' len' hmo hlen) ?_
     intro _ s5 h5
+    refine sat_bind (hg s5 h5.isEof) ?_
+    rintro _ _ rfl
     refine sat_bind (getS_sat h5) ?_
     rintro _ _ ⟨rfl, rfl⟩
     refine sat_mono (memSetData_sat h5 memOff' _ len' (data s5)
       (hd s5 h5.input h5.code h5.origLen) (by omega)) ?_
     intro _ s7 h7
     exact done1_of h7 (by omega)
+
+theorem assumeNotEof_sat (hleg : s0.isEof = false) (x : IState) (hx : x.isEof = s0.isEof) :
+    Exec.Sat (assumeNotEof x) (Halt s0) (fun _ x' => x = x') := by
+  unfold assumeNotEof
+  rw [hx, hleg]
+  exact sat_ok rfl
+
+theorem codesizeI_sat (hleg : s0.isEof = false) (h : Rel 0 false false 0 s0 s) :
+    Exec.Sat (codesizeI s) (Halt s0) (fun _ s' => Done1 s0 s') := by
+  unfold codesizeI
+  refine sat_bind (gasCharge_sat h _) ?_
+  intro _ s1 h1
+  refine sat_bind (assumeNotEof_sat hleg s1 h1.isEof) ?_
+  rintro _ _ rfl
+  refine sat_bind (getS_sat h1) ?_
+  rintro _ _ ⟨rfl, rfl⟩
+  have h1' : Rel (0 + GasCalc.BASE) true false 0 s0 s1 := h1.mkStrict (by decide)
+  exact sat_mono (push_sat h1' _) (fun _ _ h4 => done1_of h4 (by decide))
 
 theorem returndatacopyI_sat (h : Rel 0 false false 0 s0 s) :
     Exec.Sat (returndatacopyI s) (Halt s0) (fun _ s' => Done1 s0 s') := by
@@ -356,8 +386,9 @@ theorem jumpdest_sat (h : Rel 0 false false 0 s0 s) :
     Exec.Sat (gasCharge GasCalc.JUMPDEST s) (Halt s0) (fun _ s' => Done1 s0 s') :=
   sat_mono (gasCharge_sat h _) (fun _ _ h1 => done1_of h1 (by decide))
 
-theorem returnInner_sat (h : Rel 0 false false 0 s0 s) (r : IResult) :
-    Exec.Sat (returnInner r s) (Halt s0) (fun _ s' => Done1 s0 s') := by
+/-- RETURN / REVERT never continue (any post-condition `Q`) -/
+theorem returnInner_sat {Q : Unit → IState → Prop} (h : Rel 0 false false 0 s0 s) (r : IResult) :
+    Exec.Sat (returnInner r s) (Halt s0) Q := by
   unfold returnInner
   refine sat_bind (pop2_sat h) ?_
   rintro ⟨offset, len⟩ s1 h1
@@ -373,8 +404,8 @@ theorem returnInner_sat (h : Rel 0 false false 0 s0 s) (r : IResult) :
     exact haltOut_sat h4 _ _
   · exact haltOut_sat h1 _ _
 
-theorem revertI_sat (h : Rel 0 false false 0 s0 s) :
-    Exec.Sat (revertI s) (Halt s0) (fun _ s' => Done1 s0 s') := by
+theorem revertI_sat {Q : Unit → IState → Prop} (h : Rel 0 false false 0 s0 s) :
+    Exec.Sat (revertI s) (Halt s0) Q := by
   unfold revertI
   refine sat_bind (check_sat h _) ?_
   intro _ s0' e0; subst e0
